@@ -18,13 +18,30 @@ def finding_key(req, obs, detail):
         # `a < a > (X)`: any right operand that is printed in parentheses gives the same misreading
         # (also when the operand only *starts* with `(`, e.g. `a < a > (++a)++`, where the call ends up below a postfix node)
         pre = "tree-differs[bin:GreaterThan->call] ret (bin GreaterThan (bin LessThan (id a) (id a)) "
-        if re.match(r"tree-differs\[bin:GreaterThan->[^\]]*\] ret \(bin GreaterThan \(bin LessThan \(id a\) \(id a\)\) ", key):
+        # (a cast as right operand also starts with `(`: `a < a > (T)a`; when the would-be argument list does not parse the
+        # text is rejected instead of regrouped)
+        if re.match(r"(tree-differs\[bin:GreaterThan->[^\]]*\]|rejected-by-parser) ret \(bin GreaterThan \(bin LessThan \(id a\) \(id a\)\) ", key):
             key = pre + "(bin BitwiseAnd (id a) (id a)))"
         # the same misreading in any position (`f(a < b, c > (d))` reads as `f(a<b, c>(d))`): the re-read tree has
         # template arguments although the original has none at all
         eot = re.compile(r"\((?:E|B|T) \(")
         if key.startswith("tree-differs") and " ==> " in (obs or "") and not eot.search(req) and eot.search(obs.split(" ==> ", 1)[1]):
             key = pre + "(bin BitwiseAnd (id a) (id a)))"
+        # an expression in an expression-or-type position (template argument, sizeof) is printed with format_expression
+        # and read under Terminator::TypeList: an exposed `>`-family operator, `,` or `<` is misread whatever carries the
+        # position (call / type of a cast / nested type) — one key per operator family
+        exact = ("rejected-by-parser ret (sizeof (E (bin RightShift (id a) (id a))))",
+                 "rejected-by-parser ret (cast (tyt (n S) (E (bin RightShift (id a) (id a)))) (id a))")
+        fam = re.search(r"\(E \(bin (RightShift|GreaterThan|GreaterEqual|Sequence|LessThan) ", key)
+        if fam and key not in exact and not key.startswith("src "):
+            op = fam.group(1)
+            if op == "Sequence":
+                key = "tree-differs[list-length] ret (call (id a) ((E (bin Sequence (id a) (id a)))) ())"
+            elif op == "LessThan":
+                key = "tree-differs[call->bin:LessThan] ret (call (id a) ((E (bin LessThan (id a) (id a)))) ())"
+            else:
+                key = "rejected-by-parser ret (call (id a) ((E (bin RightShift (id a) (id a)))) ())"
+            return key
         # source stream: a declarator whose array size is a parenthesised comma expression (one class, whatever
         # statement the 1-minimal program wraps around it)
         if key.startswith("src rejected-by-parser ") and re.search(r"(?:\ba|>|,) a \[ \( \w+ , \w+ \) \]", key):
